@@ -179,8 +179,12 @@ pub fn c04_case(bytes: &[u8], stats: &mut Stats, counting: bool, cfg: &GenConfig
 
 pub fn c04(ctx: &CheckCtx) -> i32 {
     let cfg = default_gen_config();
+    let mut tag_cfg = default_gen_config();
+    tag_cfg.query.tag_bias = true;
     if ctx.replay.is_some() {
-        return replay_with(ctx, &|sub, b| c04_case(b, &mut Stats::default(), false, &cfg, sub != "c04-listed"));
+        return replay_with(ctx, &|sub, b| {
+            c04_case(b, &mut Stats::default(), false, if sub == "c04-tags" { &tag_cfg } else { &cfg }, sub != "c04-listed")
+        });
     }
     let mut report = Report::new(
         ctx,
@@ -194,9 +198,13 @@ pub fn c04(ctx: &CheckCtx) -> i32 {
     );
     report.assume("the pruning adapter uses only what VertexInfo documents as binding (no first_edge / edges_with_name of non-mandatory edges)");
     report.assume("the main search ignores dynamic hints of properties that carry a `>=` filter with a tag (listed finding, pinned by the repo's own unit test); a second search includes them and tolerates exactly that attributed signature");
-    let cases = ctx.cases(250_000, 3_000_000);
+    let cases = ctx.cases(150_000, 2_000_000);
     let res = search(ctx, "c04", cases, WORLD_MIN_LEN, WORLD_MAX_LEN, |b, s, k| c04_case(b, s, k, &cfg, true));
     report.absorb(res, &|b| render_world_case(b, &cfg));
+    // tag-biased worlds: more property and fold-count tags, up to three filters per property, mostly tag operands
+    let cases = ctx.cases(200_000, 2_000_000);
+    let res = search(ctx, "c04-tags", cases, WORLD_MIN_LEN, WORLD_MAX_LEN, |b, s, k| c04_case(b, s, k, &tag_cfg, true));
+    report.absorb(res, &|b| render_world_case(b, &tag_cfg));
     let cases = ctx.cases(60_000, 800_000);
     let res = search(ctx, "c04-listed", cases, WORLD_MIN_LEN, WORLD_MAX_LEN, |b, s, k| {
         let mut scratch = Stats::default();
